@@ -2115,9 +2115,61 @@ def _unroll_constant_table_loops(tree):
     return nonlocal_n[0]
 
 
+def _dissolve_private_list_subclasses(tree):
+    """class _M(list): def m(self, ..): BODY          x = _M()     x.m(a)        ==>     def _M_m(self, ..): BODY     x = []     _M_m(x, a)
+    A private subclass of list (dict, set) that adds plain methods and no state of its own - no __init__, no class attributes, no
+    dunder methods - is a list with named operations; each added method whose name nothing else in the module defines or stores
+    becomes a private function taking the list, so that the helper inliner puts the appends / tests where the rules look for them."""
+    n = 0
+    builtin = set(dir(list)) | set(dir(dict)) | set(dir(set))
+    for cls in [c for c in tree.body if isinstance(c, ast.ClassDef) and c.name.startswith("_") and len(c.bases) == 1 and isinstance(c.bases[0], ast.Name)
+                and c.bases[0].id in ("list", "dict", "set") and not c.keywords and not c.decorator_list]:
+        members = [m for m in cls.body if not (isinstance(m, ast.Expr) and isinstance(m.value, ast.Constant)) and not isinstance(m, ast.Pass)]
+        if not members or not all(isinstance(m, ast.FunctionDef) and not m.decorator_list and m.args.args and not m.name.startswith("__") and m.name not in builtin for m in members):
+            continue
+        names = {m.name for m in members}
+        other_defs = [f for f in ast.walk(tree) if isinstance(f, ast.FunctionDef) and f.name in names and f not in members]
+        stored = [x for x in ast.walk(tree) if isinstance(x, ast.Attribute) and x.attr in names and isinstance(x.ctx, (ast.Store, ast.Del))]
+        ctor_uses = [x for x in ast.walk(tree) if isinstance(x, ast.Name) and x.id == cls.name]
+        ctor_calls = [c for c in ast.walk(tree) if isinstance(c, ast.Call) and isinstance(c.func, ast.Name) and c.func.id == cls.name and not c.args and not c.keywords]
+        if other_defs or stored or len(ctor_uses) != len(ctor_calls):
+            continue
+        # every read of one of the method names must be a direct call on a plain receiver
+        reads = [x for x in ast.walk(tree) if isinstance(x, ast.Attribute) and x.attr in names and isinstance(x.ctx, ast.Load)]
+        calls = [c for c in ast.walk(tree) if isinstance(c, ast.Call) and isinstance(c.func, ast.Attribute) and c.func.attr in names]
+        plain = lambda e: isinstance(e, ast.Name) or (isinstance(e, ast.Attribute) and plain(e.value))
+        if len(reads) != len(calls) or not all(plain(c.func.value) for c in calls):
+            continue
+        idx = tree.body.index(cls)
+        new_fns = []
+        for m in members:
+            m.name = f"_{cls.name.lstrip('_')}_{m.name}"
+            new_fns.append(m)
+        for c in calls:
+            fname = f"_{cls.name.lstrip('_')}_{c.func.attr}"
+            c.args = [c.func.value] + list(c.args)
+            c.func = ast.copy_location(ast.Name(id=fname, ctx=ast.Load()), c.func)
+        empty = {"list": ast.List(elts=[], ctx=ast.Load()), "dict": ast.Dict(keys=[], values=[]), "set": ast.Call(func=ast.Name(id="set", ctx=ast.Load()), args=[], keywords=[])}[cls.bases[0].id]
+
+        class R(ast.NodeTransformer):
+            def visit_Call(self, node):
+                self.generic_visit(node)
+                if isinstance(node.func, ast.Name) and node.func.id == cls.name:
+                    import copy as _cp
+                    return ast.copy_location(_cp.deepcopy(empty), node)
+                return node
+        tree.body[idx:idx + 1] = new_fns
+        R().visit(tree)
+        n += 1
+    if n:
+        ast.fix_missing_locations(tree)
+    return n
+
+
 def normalise_module(tree: ast.Module):
     info = {"constants": 0, "inlined": {}, "dropped_helpers": []}
     _StripFunctionAnnotations().visit(tree)
+    _dissolve_private_list_subclasses(tree)
     _unroll_constant_table_loops(tree)
     _inline_vararg_forwarders(tree)
     _success_flag_finally(tree)
